@@ -289,6 +289,7 @@ def run(report, prog, tier):
     rule_gates(report, prog, res)
     rule_agf_iteration(report, prog, res)
     c11.rule_agf_members(report, prog, rule='C10-R7')
+    c11.agf_retract(report, prog)
     from . import c05
     c05.rule_miu_writes(report, prog, rule='C10-R6')
     report.trusted += ['struct.calcsize semantics', 'len(x.encode()) == len(x) induction for aggregated PDUs']
